@@ -4,15 +4,25 @@ Import ListNotations.
 Require Import NV.C25.Model NV.C25.ProofsBase.
 
 Section Main.
-Variables MM RR EE HH : Type.
+Variables MM RR EE HH SS : Type.
 Notation St := (St MM RR).
-Variable step : nat -> St -> St.
+Variable gstep : nat -> SS -> St -> St.
 Variable estep : nat -> St -> EE -> EE.
 Variable hstep : nat -> St -> HH -> HH.
 Variable init : St.
 Variable e0 : EE.
 Variable h0 : HH.
+Variable raw : nat -> SS.
+Variable fresh : nat -> bool.
 Variable sg : strategy.
+
+(* the seed schedule: iteration i re-uses the seed of the last fresh iteration <= i *)
+Fixpoint sched (i : nat) : SS :=
+  match i with
+  | O => raw 0
+  | S j => if fresh (S j) then raw (S j) else sched j
+  end.
+Definition step (i : nat) (st : St) : St := gstep i (sched i) st.
 
 Notation disk := (disk MM RR EE HH).
 Notation op := (op MM RR EE HH).
@@ -35,10 +45,14 @@ Notation load := (load MM RR EE HH).
 Notation touches := (touches MM RR EE HH).
 Notation nperf := (nperf MM RR EE HH).
 Notation pr := fixed_proto.
-Notation loop := (loop MM RR EE HH step estep hstep h0 pr sg).
-Notation run := (run MM RR EE HH step estep hstep init e0 h0 pr sg).
-Notation crashed := (crashed MM RR EE HH step estep hstep init e0 h0 pr sg).
-Notation chain := (chain MM RR EE HH step estep hstep init e0 h0 pr sg).
+Notation loop := (loop MM RR EE HH SS gstep estep hstep h0 raw pr sg).
+Notation run := (run MM RR EE HH SS gstep estep hstep init e0 h0 raw fresh pr sg).
+Notation crashed := (crashed MM RR EE HH SS gstep estep hstep init e0 h0 raw fresh pr sg).
+Notation chain := (chain MM RR EE HH SS gstep estep hstep init e0 h0 raw fresh pr sg).
+Notation seed_at := (seed_at SS raw).
+Notation prepare := (prepare SS raw fresh).
+Notation raws := (raws SS raw).
+Notation set_nth := (set_nth SS).
 Notation resume_state := (resume_state MM RR EE HH e0 sg).
 Notation slot := (slot_of sg).
 
@@ -272,7 +286,63 @@ Proof.
 Qed.
 
 (* ---- preservation of [good] ---- *)
-Hypothesis step_nonempty : forall i st, snd (step i st) <> [].
+Hypothesis gstep_nonempty : forall i sd st, snd (gstep i sd st) <> [].
+Hypothesis fresh0 : fresh 0 = true.
+
+Lemma step_nonempty : forall i st, snd (step i st) <> [].
+Proof. intros. apply gstep_nonempty. Qed.
+
+(* ---- the seed schedule prepared by every run is [sched] ---- *)
+Lemma set_nth_length : forall l i x, length (set_nth i x l) = length l.
+Proof. induction l; intros [ | i] x; simpl; auto. Qed.
+
+Lemma nth_set_nth_same : forall l i x dd, i < length l -> nth i (set_nth i x l) dd = x.
+Proof.
+  induction l; intros [ | i] x dd Hl; simpl in *; try lia; [reflexivity | apply IHl; lia].
+Qed.
+
+Lemma nth_set_nth_other : forall l i k x dd, k <> i -> nth k (set_nth i x l) dd = nth k l dd.
+Proof.
+  induction l; intros [ | i] [ | k] x dd Hne; simpl; try reflexivity; try lia.
+  apply IHl. lia.
+Qed.
+
+Lemma prepare_sched : forall n fuel i sq, i + fuel = n -> length sq = n ->
+  (forall k, k < i -> nth k sq (raw 0) = sched k) ->
+  (forall k, i <= k < n -> nth k sq (raw 0) = raw k) ->
+  exists sq', prepare fuel i sq = Some sq' /\ forall k, k < n -> seed_at sq' k = sched k.
+Proof.
+  intros n. induction fuel as [ | fuel IH]; intros i sq Hn Hl Hlo Hhi.
+  - exists sq. split; [reflexivity | ]. intros k Hk. apply Hlo. lia.
+  - cbn [Model.prepare]. destruct (fresh i) eqn:Ef.
+    + apply IH; try lia; try assumption.
+      * intros k Hk. destruct (Nat.eq_dec k i) as [-> | Hne]; [ | apply Hlo; lia].
+        rewrite Hhi by lia. destruct i; [reflexivity | ]. simpl. now rewrite Ef.
+      * intros k Hk. apply Hhi. lia.
+    + destruct i as [ | j]; [rewrite fresh0 in Ef; discriminate | ].
+      apply IH; try lia.
+      * now rewrite set_nth_length.
+      * intros k Hk. destruct (Nat.eq_dec k (S j)) as [-> | Hne].
+        -- rewrite nth_set_nth_same by lia. rewrite Hlo by lia. simpl. now rewrite Ef.
+        -- rewrite nth_set_nth_other by exact Hne. apply Hlo. lia.
+      * intros k Hk. rewrite nth_set_nth_other by lia. apply Hhi. lia.
+Qed.
+
+Lemma raws_length : forall n, length (raws n) = n.
+Proof. intros. unfold Model.raws. now rewrite map_length, seq_length. Qed.
+
+Lemma raws_nth : forall n k, k < n -> nth k (raws n) (raw 0) = raw k.
+Proof.
+  intros n k Hk. unfold Model.raws.
+  rewrite (map_nth raw (seq 0 n) 0 k), seq_nth by exact Hk. reflexivity.
+Qed.
+
+Lemma prepare_all_sched : forall n, exists sq, prepare n 0 (raws n) = Some sq /\ forall k, k < n -> seed_at sq k = sched k.
+Proof.
+  intros n. apply (prepare_sched n n 0 (raws n)); try lia.
+  - apply raws_length.
+  - intros k Hk. apply raws_nth. lia.
+Qed.
 
 Definition marker_lt (i : nat) (d : disk) : Prop :=
   forall j, lookup Marker d = Some (Valid (PInt j)) -> j < i.
@@ -449,8 +519,8 @@ Proof.
 Qed.
 
 (* ---- the loop ---- *)
-Lemma loop_S : forall f i st eh (d : disk), loop (S f) i st eh d =
-  let st' := step i st in
+Lemma loop_S : forall sq f i st eh (d : disk), loop sq (S f) i st eh d =
+  let st' := gstep i (seed_at sq i) st in
   let eh' := estep i st' eh in
   let o1 := ops1 MM RR EE HH pr sg i st' eh' in
   let d1 := run_ops o1 d in
@@ -458,7 +528,7 @@ Lemma loop_S : forall f i st eh (d : disk), loop (S f) i st eh d =
   match snd rd with
   | Some (PH h) =>
       let o := o1 ++ fst rd ++ ops2 MM RR EE HH pr sg i st' (hstep i st' h) in
-      let r := loop f (S i) st' eh' (run_ops o d) in (o ++ fst r, snd r)
+      let r := loop sq f (S i) st' eh' (run_ops o d) in (o ++ fst r, snd r)
   | _ => (o1 ++ fst rd, Stuck)
   end.
 Proof. reflexivity. Qed.
@@ -479,16 +549,17 @@ Proof.
   intros. destruct sg_cases as [Esg | Esg]; [rewrite (inval_all Esg) | rewrite (inval_latest Esg)]; reflexivity.
 Qed.
 
-Lemma loop_good : forall n fuel i (d : disk), i + fuel = n ->
+Lemma loop_good : forall n sq, (forall k, k < n -> seed_at sq k = sched k) ->
+  forall fuel i (d : disk), i + fuel = n ->
   good n d -> marker_lt i d ->
   (forall j, i = S j -> lookup (MHist (slot j)) d = Some (Valid (PH (th i)))) ->
   lookup RandomState d = Some (Valid PRng) ->
-  snd (loop fuel i (tst i) (te i) d) = Ok (tst n) /\
-  forall k lost, good n (crash_raw k lost (fst (loop fuel i (tst i) (te i) d)) d).
+  snd (loop sq fuel i (tst i) (te i) d) = Ok (tst n) /\
+  forall k lost, good n (crash_raw k lost (fst (loop sq fuel i (tst i) (te i) d)) d).
 Proof.
-  intros n. induction fuel as [ | fuel IH]; intros i d Hn Hg Hlt Hh Hrng.
+  intros n sq Hsq. induction fuel as [ | fuel IH]; intros i d Hn Hg Hlt Hh Hrng.
   - simpl. replace i with n by lia. split; [reflexivity | intros; exact Hg].
-  - rewrite loop_S. cbv zeta.
+  - rewrite loop_S. cbv zeta. rewrite (Hsq i) by lia. fold (step i (tst i)).
     rewrite <- tst_S, <- te_S.
     set (o1 := ops1 MM RR EE HH pr sg i (tst (S i)) (te (S i))).
     set (d1 := run_ops o1 d).
@@ -609,9 +680,11 @@ Proof.
     assert (Hsame : forall f, lookup f (run_ops o d) = lookup f d) by (intros; now apply reads_frame).
     destruct Hc as [Hsc Hrng]. assert (Hmh := Hsc). destruct Hmh as (_ & _ & _ & _ & Hmh).
     destruct (Nat.eq_dec (S j) n) as [En | En].
-    + subst n. rewrite Nat.sub_diag. cbn [Model.loop fst snd]. split; [reflexivity | ].
-      intros k lost. rewrite app_nil_r. apply (good_same (S j) d); [intros; now apply reads_crash | exact Hg].
-    + rewrite (He En).
+    + subst n. rewrite Nat.eqb_refl. cbn [fst snd]. split; [reflexivity | ].
+      intros k lost. apply (good_same (S j) d); [intros; now apply reads_crash | exact Hg].
+    + rewrite (He En). destruct (Nat.eqb (S j) n) eqn:Eq; [apply Nat.eqb_eq in Eq; contradiction | ].
+      cbn [prepare_all pr]. rewrite Nat.sub_0_r.
+      destruct (prepare_all_sched n) as (sq & -> & Hsq).
       assert (G0 : S j + (n - S j) = n) by lia.
       assert (G1 : good n (run_ops o d)) by (apply (good_same n d); assumption).
       assert (G2 : marker_lt (S j) (run_ops o d))
@@ -619,7 +692,8 @@ Proof.
       assert (G3 : forall j', S j = S j' -> lookup (MHist (slot j')) (run_ops o d) = Some (Valid (PH (th (S j)))))
         by (intros j' Hj'; inversion Hj'; subst j'; rewrite Hsame; exact Hmh).
       assert (G4 : lookup RandomState (run_ops o d) = Some (Valid PRng)) by (rewrite Hsame; exact Hrng).
-      destruct (loop_good n (n - S j) (S j) (run_ops o d) G0 G1 G2 G3 G4) as [La Lb].
+      destruct (loop_good n sq Hsq (n - S j) (S j) (run_ops o d) G0 G1 G2 G3 G4) as [La Lb].
+      cbn [fst snd].
       * split; [exact La | ]. intros k lost. rewrite crash_raw_app. destruct (k <? nperf o d).
         -- apply (good_same n d); [intros; now apply reads_crash | exact Hg].
         -- apply Lb.
@@ -636,8 +710,9 @@ Proof.
       by (intros j Hj; discriminate).
     assert (G4 : lookup RandomState (run_ops o d) = Some (Valid PRng))
       by (unfold o; rewrite run_ops_app; apply dump_lookup).
-    destruct (loop_good n n 0 (run_ops o d) (eq_refl _) G1 G2 G3 G4) as [La Lb].
-    cbv zeta. cbn [fst snd]. fold o.
+    destruct (prepare_all_sched n) as (sq & Hp & Hsq).
+    destruct (loop_good n sq Hsq n 0 (run_ops o d) (eq_refl _) G1 G2 G3 G4) as [La Lb].
+    cbv zeta. fold o. rewrite Hp. cbn [fst snd].
     + split; [exact La | ]. intros k lost. rewrite crash_raw_app. destruct (k <? nperf o d).
       * apply good_none. rewrite crash_raw_frame; [exact Hm | now apply Hto].
       * apply Lb.
